@@ -75,7 +75,7 @@ func zzH_c20_lru() {
 //
 //verif:property C20
 //verif:expect-reach end
-//verif:bound established connection without record protection (null cipher: framing, buffers, sequence numbers, alerts are the real code); pairs of logical threads Write||Write, Write||Read, Write||Close, Read||Close, Read||Read, Write||ConnectionState, CloseWrite||Write; payloads of 2 symbolic bytes; one inbound application-data record of 2 symbolic bytes followed by end of stream; footprint + lock-set check (each thread runs to completion, every access is recorded with the locks held; two accesses of different threads to one cell, one a write, with no common lock and not both atomic = race)
+//verif:bound established connection without record protection (null cipher: framing, buffers, sequence numbers, alerts are the real code); pairs of logical threads Write||Write, Write||Read, Write||Close, Read||Close, Read||Read, Write||ConnectionState, CloseWrite||Write, CloseWrite||CloseWrite, Close||CloseWrite; payloads of 2 symbolic bytes; one inbound application-data record of 2 symbolic bytes followed by end of stream; footprint + lock-set check (each thread runs to completion, every access is recorded with the locks held; two accesses of different threads to one cell, one a write, with no common lock and not both atomic = race)
 //verif:outside the activeCall interlock's interleavings (Close arriving while a Write is in flight), handshakes started concurrently, record protection (covered sequentially by C07), RWMutex readers are treated like writers' lock holders
 //verif:unwind 200
 func zzH_c20_conn() {
@@ -97,7 +97,11 @@ func zzH_c20_conn() {
 			}
 		}
 	}
-	switch vChoice("ops", 7) {
+	switch vChoice("ops", 9) {
+	case 7:
+		vParallel(rep(func() { c.CloseWrite() }), rep(func() { c.CloseWrite() }))
+	case 8:
+		vParallel(rep(func() { c.Close() }), rep(func() { c.CloseWrite() }))
 	case 0:
 		vParallel(rep(func() { c.Write(a) }), rep(func() { c.Write(b) }))
 	case 1:
